@@ -132,7 +132,7 @@ func runC08(e *Env) {
 			// success return only after code ∈ {Content(69), Valid(67)}
 			saw := map[int64]bool{}
 			core.Instrs(f, func(in ssa.Instruction) {
-				if b, ok := in.(*ssa.BinOp); ok && b.Op == token.NEQ {
+				if b, ok := in.(*ssa.BinOp); ok && (b.Op == token.NEQ || b.Op == token.EQL) { // `!= a && != b` or its De Morgan dual
 					if k, isK := core.ConstInt(b.Y); isK {
 						saw[k] = true
 					}
